@@ -343,6 +343,9 @@ DB = "nostr_relay/storage/db.py"
 KV = "nostr_relay/storage/kv.py"
 
 MUTANTS = [
+    M("c17-sql-index-capped", DB, "            tags = set()\n            for tag in event.tags:\n                if tag[0] in (\"delegation\", \"expiration\"):", "            tags = set()\n            for tag in event.tags[:32]:\n                if tag[0] in (\"delegation\", \"expiration\"):", "C17.index"),
+    M("c17-kv-index-no-expiration", KV, "                len(tag[0]) == 1 or tag[0] in (\"expiration\", \"delegation\")", "                len(tag[0]) == 1 or tag[0] in (\"delegation\",)", "C17.index"),
+    M("c17-sql-index-break", DB, "                elif len(tag[0]) == 1:\n                    tags.add((tag[0], tag[1] if len(tag) > 1 else \"\"))\n", "                elif len(tag[0]) == 1:\n                    tags.add((tag[0], tag[1] if len(tag) > 1 else \"\"))\n                if len(tags) >= 64:\n                    break\n", "C17.index"),
     M("c17-sql-range-40000", DB, "(kind >= 20000 and kind < 30000)", "(kind >= 20000 and kind < 40000)", "C17.range", canary=True),
     M("c17-kv-start-30000", KV, "start = INDEXES[\"kinds\"].to_key(20000)", "start = INDEXES[\"kinds\"].to_key(10000)", "C17.range"),
     M("c17-sql-third-disjunct", DB, "                (tags.name = 'expiration' AND tags.value < '%NOW%')\n", "                (tags.name = 'expiration' AND tags.value < '%NOW%')\n            OR\n                (kind = 4 AND created_at < %NOW% - 86400)\n", "C17.sources"),
